@@ -2,6 +2,7 @@ package rules
 
 import (
 	"fmt"
+	"go/token"
 	"go/types"
 	"sort"
 
@@ -104,5 +105,48 @@ func c16samekey(c *core.Ctx, r *core.Reporter) {
 			key = fmt.Sprintf("%s#%d", key, seen[key])
 		}
 		r.Decide(len(count) == 1 || s.shape == major, rule, key, s.pos, fmt.Sprintf("key %s; the %d sibling operations use: %v", s.shape, len(sites), count))
+	}
+}
+
+// c16widen: the Equal methods of the number types are each one half of a relation (SingleFloat.Equal(DoubleFloat)
+// and DoubleFloat.Equal(SingleFloat)); equal and equalp reach them for the elements of vectors and arrays. Two
+// floats of different formats are compared in the wider format: an Equal method that narrows a double to a
+// single before comparing calls 0.1d0 and 0.1s0 equal while its mirror, and the numeric =, do not (the relation
+// stops being symmetric). Every conversion whose result is compared inside an Equal method of package slip is
+// an instance; a float64 -> float32 narrowing is the violation.
+func c16widen(c *core.Ctx, r *core.Reporter) {
+	const rule = "C16.widen"
+	r.Rule(rule, "no Equal method of the object types of package slip narrows a floating point operand (float64 to float32) before an == comparison: mixed-format floats are compared in the wider format, which both halves of the relation and the numeric = agree on", 10)
+	kind := func(t types.Type) types.BasicKind {
+		if b, ok := t.Underlying().(*types.Basic); ok {
+			return b.Kind()
+		}
+		return types.Invalid
+	}
+	for _, fn := range c.ModuleFuncs() {
+		if fn.Pkg == nil || fn.Pkg.Pkg.Path() != core.SlipPath || fn.Name() != "Equal" || fn.Signature.Recv() == nil {
+			continue
+		}
+		n := 0
+		for _, b := range fn.Blocks {
+			for _, in := range b.Instrs {
+				cv, ok := in.(*ssa.Convert)
+				if !ok || cv.Referrers() == nil {
+					continue
+				}
+				compared := false
+				for _, rf := range *cv.Referrers() {
+					if bo, ok := rf.(*ssa.BinOp); ok && (bo.Op == token.EQL || bo.Op == token.NEQ) {
+						compared = true
+					}
+				}
+				if !compared {
+					continue
+				}
+				n++
+				narrow := kind(cv.X.Type()) == types.Float64 && kind(cv.Type()) == types.Float32
+				r.Decide(!narrow, rule, fmt.Sprintf("%s|compared conversion %d", core.SSAName(fn), n), c.Pos(cv.Pos()), fmt.Sprintf("%s -> %s compared with ==; narrows a double to a single: %v", cv.X.Type(), cv.Type(), narrow))
+			}
+		}
 	}
 }
